@@ -71,6 +71,47 @@ Proof.
   rewrite (closed_struct_inv bits _ _ _ Kmax k0 Hbits P1 P4 Hg HkK _ C2). rewrite E1.
   apply (closed_inv_fwd bits _ _ _ Kmax k0 Hbits P1 P4 Hg Hik HkK). apply canon_row; [split; assumption | exact Hcm].
 Qed.
+
+(* the product: transform both factors, multiply row by row (ntt_mul: what the expression c = a * b stores, C07/C03), transform back *)
+Definition mulrows (A B : list Z) : list Z := concat (map (fun c => ntt_mul (nth c P 0) k0 (rowsof A c) (rowsof B c)) (seq 0 nm)).
+Theorem product a b y0 : canon a -> canon b -> length y0 = S n ->
+  exists A B yf, fwd (Z.of_nat n) (Z.of_nat nm) a ph sph om P = Some A /\ fwd (Z.of_nat n) (Z.of_nat nm) b ph sph om P = Some B /\
+    invf fuel (Z.of_nat n) (Z.of_nat nm) (mulrows A B) iom ipd ipi sipi P y0 = Some (concat (map (fun c => nega_spec (nth c P 0) k0 (rowsof a c) (rowsof b c)) (seq 0 nm)), yf).
+Proof.
+  intros Ha Hb Hy.
+  set (fa := fun c => ntt_fwd_s bits (nth c P 0) (nth c roots 0) Kmax k0 (rowsof a c)). set (fb := fun c => ntt_fwd_s bits (nth c P 0) (nth c roots 0) Kmax k0 (rowsof b c)).
+  assert (Fl : forall (x : list Z) c, canon x -> (c < nm)%nat -> let f := ntt_fwd_s bits (nth c P 0) (nth c roots 0) Kmax k0 (rowsof x c) in
+     f = ntt_fwd bits (nth c P 0) (nth c roots 0) Kmax k0 (rowsof x c) /\ length f = n).
+  { intros x c Hx Hcm. cbv zeta. destruct (facts c Hcm) as [P1 P4]. destruct (Hrows c Hcm) as (_ & Hg & Hik). destruct (canon_row x c Hx Hcm) as [Ln Cn].
+    assert (E : ntt_fwd_s bits (nth c P 0) (nth c roots 0) Kmax k0 (rowsof x c) = ntt_fwd bits (nth c P 0) (nth c roots 0) Kmax k0 (rowsof x c)) by (apply (closed_struct_fwd bits _ _ Kmax k0 Hbits P1 P4 Hg HkK); exact Ln).
+    split; [exact E|]. rewrite E. destruct (closed_fwd_canonical bits _ _ Kmax k0 Hbits P1 P4 Hg HkK _ Ln) as [L _]. exact L. }
+  set (tot := fun (f : nat -> list Z) c => if (c <? nm)%nat then f c else repeat 0 n).
+  assert (TL : forall (x : list Z), canon x -> forall c, length (tot (fun c => ntt_fwd_s bits (nth c P 0) (nth c roots 0) Kmax k0 (rowsof x c)) c) = n).
+  { intros x Hx c. unfold tot. destruct (Nat.ltb_spec c nm) as [Hcm|]; [exact (proj2 (Fl x c Hx Hcm)) | apply repeat_length]. }
+  assert (TE : forall (f : nat -> list Z), map f (seq 0 nm) = map (tot f) (seq 0 nm)).
+  { intros f. apply map_ext_in. intros c Hin. apply in_seq in Hin. unfold tot. replace (c <? nm)%nat with true by (symmetry; apply Nat.ltb_lt; lia). reflexivity. }
+  assert (RW : forall (x : list Z), canon x -> forall c, (c < nm)%nat -> rowsof (concat (map (fun c => ntt_fwd_s bits (nth c P 0) (nth c roots 0) Kmax k0 (rowsof x c)) (seq 0 nm))) c = ntt_fwd_s bits (nth c P 0) (nth c roots 0) Kmax k0 (rowsof x c)).
+  { intros x Hx c Hcm. rewrite TE. unfold rowsof at 1. change (firstn n (skipn (c * n) ?l)) with (slice l (c * n) n).
+    rewrite (slice_concat_rows _ n nm c (TL x Hx) Hcm). unfold tot. replace (c <? nm)%nat with true by (symmetry; apply Nat.ltb_lt; lia). reflexivity. }
+  exists (concat (map fa (seq 0 nm))), (concat (map fb (seq 0 nm))).
+  set (m := fun c => ntt_mul (nth c P 0) k0 (fa c) (fb c)).
+  assert (ML : forall c, length (m c) = n) by (intros c; unfold m, ntt_mul, pointwise; apply tab_length).
+  assert (EM : mulrows (concat (map fa (seq 0 nm))) (concat (map fb (seq 0 nm))) = concat (map m (seq 0 nm))).
+  { unfold mulrows. f_equal. apply map_ext_in. intros c Hin. apply in_seq in Hin. unfold m, fa, fb. rewrite (RW a Ha c ltac:(lia)), (RW b Hb c ltac:(lia)). reflexivity. }
+  assert (CM : canon (concat (map m (seq 0 nm)))).
+  { split; [apply concat_rows_length; exact ML|]. intros c Hcm. unfold rowsof. change (firstn n (skipn (c * n) ?l)) with (slice l (c * n) n).
+    rewrite (slice_concat_rows m n nm c ML Hcm). destruct (facts c Hcm) as [P1 _]. unfold m, ntt_mul, pointwise, tab. apply Forall_forall. intros v Hin. apply in_map_iff in Hin. destruct Hin as (j & <- & _).
+    apply Z.mod_pos_bound. lia. }
+  destruct (Hinv _ y0 CM Hy) as (yf & E). exists yf. split; [apply Hfwd; exact Ha|]. split; [apply Hfwd; exact Hb|]. rewrite EM, E. f_equal. f_equal. f_equal.
+  apply map_ext_in. intros c Hin. apply in_seq in Hin. assert (Hcm : (c < nm)%nat) by lia.
+  unfold rowsof at 1. change (firstn n (skipn (c * n) ?l)) with (slice l (c * n) n). rewrite (slice_concat_rows m n nm c ML Hcm).
+  destruct (facts c Hcm) as [P1 P4]. destruct (Hrows c Hcm) as (_ & Hg & Hik).
+  assert (Cm : NTTClosed.canonical (nth c P 0) k0 (m c)).
+  { split; [apply ML|]. intros i Hi. unfold m, ntt_mul, pointwise. rewrite tab_nth by exact Hi. apply Z.mod_pos_bound. lia. }
+  rewrite (closed_struct_inv bits _ _ _ Kmax k0 Hbits P1 P4 Hg HkK _ Cm). unfold m, fa, fb.
+  rewrite (proj1 (Fl a c Ha Hcm)), (proj1 (Fl b c Hb Hcm)).
+  apply (closed_product bits _ _ _ Kmax k0 Hbits P1 P4 Hg Hik HkK); [destruct (canon_row a c Ha Hcm) as [L _]; exact L | destruct (canon_row b c Hb Hcm) as [L _]; exact L].
+Qed.
 End RT.
 
 Definition rt (fwd : list Z -> option (list Z)) (invf : list Z -> option (list Z * list Z)) (data : list Z) : Prop :=
@@ -217,3 +258,142 @@ Proof.
     + intros d yy [Ld Cd] Hyy. exact (proj2 (proj2 (IV d yy Ld Cd Hyy))).
 Qed.
 End Inst.
+
+Definition pr (P : list Z) (k0 nm : nat) (fwd : list Z -> option (list Z)) (invf : list Z -> option (list Z * list Z)) (a b : list Z) : Prop :=
+  exists A B yf, fwd a = Some A /\ fwd b = Some B /\
+    invf (mulrows P k0 nm A B) = Some (concat (map (fun c => nega_spec (nth c P 0) k0 (rowsof k0 a c) (rowsof k0 b c)) (seq 0 nm)), yf).
+
+Section InstP.
+Variables (P roots invk : list Z) (k0 nm fuel : nat) (ph0 sph0 ipd0 ipi0 sipi0 om0 iom0 a b y0 : list Z).
+Notation n := (2 ^ S k0)%nat.
+Hypothesis Hk4 : (4 <= S k0)%nat.
+Hypothesis Hf : (S k0 < fuel)%nat.
+Hypothesis Hnm : Z.of_nat nm < 2 ^ 28.
+Hypothesis L1 : length ph0 = (nm * n)%nat.
+Hypothesis L2 : length sph0 = (nm * n)%nat.
+Hypothesis L3 : length ipd0 = nm.
+Hypothesis L4 : length ipi0 = (nm * n)%nat.
+Hypothesis L5 : length sipi0 = (nm * n)%nat.
+Hypothesis L6 : length om0 = (nm * (n * 2))%nat.
+Hypothesis L7 : length iom0 = (nm * (n * 2))%nat.
+Hypothesis Ha : canon P k0 nm a.
+Hypothesis Hb : canon P k0 nm b.
+Hypothesis Hy : length y0 = S n.
+
+Theorem source_product_u32 : (S k0 <= 15)%nat ->
+  (forall c, (c < nm)%nat -> rowok32 P roots invk c /\ (nth c roots 0 ^ (2 ^ Z.of_nat 15)) mod nth c P 0 = nth c P 0 - 1 /\ (nth c invk 0 * 2 ^ Z.of_nat 15) mod nth c P 0 = 1) ->
+  exists ph sph ipd ipi sipi om iom, gen_initialize_u32 fuel (Z.of_nat n) om0 iom0 ph0 sph0 ipd0 ipi0 sipi0 (Z.of_nat nm) roots P invk = Some (ph, sph, ipd, ipi, sipi, om, iom) /\
+    pr P k0 nm (fun d => gen_ntt_pow_phi_serial_u32 (Z.of_nat n) (Z.of_nat nm) d ph sph om P) (fun d => gen_invntt_pow_invphi_serial_u32 fuel (Z.of_nat n) (Z.of_nat nm) d iom ipd ipi sipi P y0) a b /\
+    pr P k0 nm (fun d => gen_ntt_pow_phi_sse_u32 (Z.of_nat n) (Z.of_nat nm) d ph sph om P) (fun d => gen_invntt_pow_invphi_sse_u32 fuel (Z.of_nat n) (Z.of_nat nm) d iom ipd ipi sipi P y0) a b /\
+    pr P k0 nm (fun d => gen_ntt_pow_phi_avx2_u32 (Z.of_nat n) (Z.of_nat nm) d ph sph om P) (fun d => gen_invntt_pow_invphi_avx2_u32 fuel (Z.of_nat n) (Z.of_nat nm) d iom ipd ipi sipi P y0) a b.
+Proof.
+  intros HkK HR.
+  destruct (source_initialize_u32 P roots invk k0 nm fuel ph0 sph0 ipd0 ipi0 sipi0 om0 iom0 HkK Hf Hnm (fun c Hc => proj1 (HR c Hc)) L1 L2 L3 L4 L5 L6 L7)
+    as (ph & sph & ipd & ipi & sipi & om & iom & E & (M1 & M2 & M3 & M4 & M5 & M6 & M7) & Rows).
+  exists ph, sph, ipd, ipi, sipi, om, iom. split; [exact E|].
+  assert (HRow : forall c, (c < nm)%nat -> Hrow 32 (nth c P 0)) by (intros c Hc; destruct (HR c Hc) as ((A & _) & _); exact A).
+  assert (HRg : forall c, (c < nm)%nat -> Hrow 32 (nth c P 0) /\ (nth c roots 0 ^ (2 ^ Z.of_nat 15)) mod nth c P 0 = nth c P 0 - 1 /\ (nth c invk 0 * 2 ^ Z.of_nat 15) mod nth c P 0 = 1)
+    by (intros c Hc; destruct (HR c Hc) as ((A & _) & B & C); auto).
+  assert (TF : forall c, (c < nm)%nat -> let p := nth c P 0 in let g := nth c roots 0 in let shp := map (fun v => (v * 2 ^ 32) / p) in
+     (forall i, (i < n)%nat -> nth (c * n + i) ph 0 = nth i (phis p g 15 k0) 0 /\ nth (c * n + i) sph 0 = nth i (shp (phis p g 15 k0)) 0) /\
+     (forall i, (i < n - 1)%nat -> nth (c * (n * 2) + i) om 0 = nth i (flat p (S k0) (omega p g 15 k0)) 0 /\ nth (c * (n * 2) + n + i) om 0 = nth i (shp (flat p (S k0) (omega p g 15 k0))) 0)).
+  { intros c Hc. destruct (Rows c Hc) as (_ & R1 & R2). cbv zeta in R1, R2 |- *. split; intros i Hi; [destruct (R1 i Hi) as (A & B & _ & _) | destruct (R2 i Hi) as (A & B & _ & _)]; split; assumption. }
+  assert (TI : forall c, (c < nm)%nat -> let p := nth c P 0 in let g := nth c roots 0 in let ik := nth c invk 0 in let shp := map (fun v => (v * 2 ^ 32) / p) in
+     (forall i, (i < n)%nat -> nth (c * n + i) ipi 0 = nth i (cs p g ik 15 k0) 0 /\ nth (c * n + i) sipi 0 = nth i (shp (cs p g ik 15 k0)) 0) /\
+     (forall i, (i < n - 1)%nat -> nth (c * (n * 2) + i) iom 0 = nth i (flat p (S k0) (invomega p g 15 k0)) 0 /\ nth (c * (n * 2) + n + i) iom 0 = nth i (shp (flat p (S k0) (invomega p g 15 k0))) 0)).
+  { intros c Hc. destruct (Rows c Hc) as (_ & R1 & R2). cbv zeta in R1, R2 |- *. split; intros i Hi; [destruct (R1 i Hi) as (_ & _ & A & B) | destruct (R2 i Hi) as (_ & _ & A & B)]; split; assumption. }
+  assert (FW : forall d, length d = (nm * n)%nat -> (forall c, (c < nm)%nat -> Forall (fun v => 0 <= v < nth c P 0) (firstn n (skipn (c * n) d))) -> _)
+    by (intros d Ld Cd; exact (proj1 (proj2 (source_ntt_pow_phi_pointwise 15 k0 nm P roots d ph sph om ltac:(lia) Hnm Ld ltac:(lia) ltac:(lia) ltac:(lia) Cd)) HRow TF)).
+  assert (IV : forall d yy, length d = (nm * n)%nat -> (forall c, (c < nm)%nat -> Forall (fun v => 0 <= v < nth c P 0) (firstn n (skipn (c * n) d))) -> length yy = S n -> _)
+    by (intros d yy Ld Cd Hyy; exact (proj1 (proj2 (source_invntt_pow_invphi 15 k0 nm fuel P roots invk d iom ipd ipi sipi yy ltac:(lia) HkK Hnm Hf Ld ltac:(lia) ltac:(lia) ltac:(lia) ltac:(lia) Hyy Cd (fun c Hc => proj1 (proj2 (HRg c Hc))))) HRow TI)).
+  cbv zeta in FW, IV.
+  repeat split.
+  - apply (product 32 15 P roots invk _ _ k0 nm fuel ltac:(lia) ltac:(lia) HkK HRg ph sph ipd ipi sipi om iom); try assumption.
+    + intros d [Ld Cd]. exact (proj1 (FW d Ld Cd)).
+    + intros d yy [Ld Cd] Hyy. exact (proj1 (IV d yy Ld Cd Hyy)).
+  - apply (product 32 15 P roots invk _ _ k0 nm fuel ltac:(lia) ltac:(lia) HkK HRg ph sph ipd ipi sipi om iom); try assumption.
+    + intros d [Ld Cd]. exact (proj1 (proj2 (FW d Ld Cd))).
+    + intros d yy [Ld Cd] Hyy. exact (proj1 (proj2 (IV d yy Ld Cd Hyy))).
+  - apply (product 32 15 P roots invk _ _ k0 nm fuel ltac:(lia) ltac:(lia) HkK HRg ph sph ipd ipi sipi om iom); try assumption.
+    + intros d [Ld Cd]. exact (proj2 (proj2 (FW d Ld Cd))).
+    + intros d yy [Ld Cd] Hyy. exact (proj2 (proj2 (IV d yy Ld Cd Hyy))).
+Qed.
+Theorem source_product_u16 : (S k0 <= 9)%nat ->
+  (forall c, (c < nm)%nat -> rowok16 P roots invk c /\ (nth c roots 0 ^ (2 ^ Z.of_nat 9)) mod nth c P 0 = nth c P 0 - 1 /\ (nth c invk 0 * 2 ^ Z.of_nat 9) mod nth c P 0 = 1) ->
+  exists ph sph ipd ipi sipi om iom, gen_initialize_u16 fuel (Z.of_nat n) om0 iom0 ph0 sph0 ipd0 ipi0 sipi0 (Z.of_nat nm) roots P invk = Some (ph, sph, ipd, ipi, sipi, om, iom) /\
+    pr P k0 nm (fun d => gen_ntt_pow_phi_serial_u16 (Z.of_nat n) (Z.of_nat nm) d ph sph om P) (fun d => gen_invntt_pow_invphi_serial_u16 fuel (Z.of_nat n) (Z.of_nat nm) d iom ipd ipi sipi P y0) a b /\
+    pr P k0 nm (fun d => gen_ntt_pow_phi_sse_u16 (Z.of_nat n) (Z.of_nat nm) d ph sph om P) (fun d => gen_invntt_pow_invphi_sse_u16 fuel (Z.of_nat n) (Z.of_nat nm) d iom ipd ipi sipi P y0) a b /\
+    pr P k0 nm (fun d => gen_ntt_pow_phi_avx2_u16 (Z.of_nat n) (Z.of_nat nm) d ph sph om P) (fun d => gen_invntt_pow_invphi_avx2_u16 fuel (Z.of_nat n) (Z.of_nat nm) d iom ipd ipi sipi P y0) a b.
+Proof.
+  intros HkK HR.
+  destruct (source_initialize_u16 P roots invk k0 nm fuel ph0 sph0 ipd0 ipi0 sipi0 om0 iom0 HkK Hf Hnm (fun c Hc => proj1 (HR c Hc)) L1 L2 L3 L4 L5 L6 L7)
+    as (ph & sph & ipd & ipi & sipi & om & iom & E & (M1 & M2 & M3 & M4 & M5 & M6 & M7) & Rows).
+  exists ph, sph, ipd, ipi, sipi, om, iom. split; [exact E|].
+  assert (HRow : forall c, (c < nm)%nat -> Hrow 16 (nth c P 0)) by (intros c Hc; destruct (HR c Hc) as ((A & _) & _); exact A).
+  assert (HRg : forall c, (c < nm)%nat -> Hrow 16 (nth c P 0) /\ (nth c roots 0 ^ (2 ^ Z.of_nat 9)) mod nth c P 0 = nth c P 0 - 1 /\ (nth c invk 0 * 2 ^ Z.of_nat 9) mod nth c P 0 = 1)
+    by (intros c Hc; destruct (HR c Hc) as ((A & _) & B & C); auto).
+  assert (TF : forall c, (c < nm)%nat -> let p := nth c P 0 in let g := nth c roots 0 in let shp := map (fun v => (v * 2 ^ 16) / p) in
+     (forall i, (i < n)%nat -> nth (c * n + i) ph 0 = nth i (phis p g 9 k0) 0 /\ nth (c * n + i) sph 0 = nth i (shp (phis p g 9 k0)) 0) /\
+     (forall i, (i < n - 1)%nat -> nth (c * (n * 2) + i) om 0 = nth i (flat p (S k0) (omega p g 9 k0)) 0 /\ nth (c * (n * 2) + n + i) om 0 = nth i (shp (flat p (S k0) (omega p g 9 k0))) 0)).
+  { intros c Hc. destruct (Rows c Hc) as (_ & R1 & R2). cbv zeta in R1, R2 |- *. split; intros i Hi; [destruct (R1 i Hi) as (A & B & _ & _) | destruct (R2 i Hi) as (A & B & _ & _)]; split; assumption. }
+  assert (TI : forall c, (c < nm)%nat -> let p := nth c P 0 in let g := nth c roots 0 in let ik := nth c invk 0 in let shp := map (fun v => (v * 2 ^ 16) / p) in
+     (forall i, (i < n)%nat -> nth (c * n + i) ipi 0 = nth i (cs p g ik 9 k0) 0 /\ nth (c * n + i) sipi 0 = nth i (shp (cs p g ik 9 k0)) 0) /\
+     (forall i, (i < n - 1)%nat -> nth (c * (n * 2) + i) iom 0 = nth i (flat p (S k0) (invomega p g 9 k0)) 0 /\ nth (c * (n * 2) + n + i) iom 0 = nth i (shp (flat p (S k0) (invomega p g 9 k0))) 0)).
+  { intros c Hc. destruct (Rows c Hc) as (_ & R1 & R2). cbv zeta in R1, R2 |- *. split; intros i Hi; [destruct (R1 i Hi) as (_ & _ & A & B) | destruct (R2 i Hi) as (_ & _ & A & B)]; split; assumption. }
+  assert (FW : forall d, length d = (nm * n)%nat -> (forall c, (c < nm)%nat -> Forall (fun v => 0 <= v < nth c P 0) (firstn n (skipn (c * n) d))) -> _)
+    by (intros d Ld Cd; exact (proj1 (source_ntt_pow_phi_pointwise 9 k0 nm P roots d ph sph om ltac:(lia) Hnm Ld ltac:(lia) ltac:(lia) ltac:(lia) Cd) HRow TF)).
+  assert (IV : forall d yy, length d = (nm * n)%nat -> (forall c, (c < nm)%nat -> Forall (fun v => 0 <= v < nth c P 0) (firstn n (skipn (c * n) d))) -> length yy = S n -> _)
+    by (intros d yy Ld Cd Hyy; exact (proj1 (source_invntt_pow_invphi 9 k0 nm fuel P roots invk d iom ipd ipi sipi yy ltac:(lia) HkK Hnm Hf Ld ltac:(lia) ltac:(lia) ltac:(lia) ltac:(lia) Hyy Cd (fun c Hc => proj1 (proj2 (HRg c Hc)))) HRow TI)).
+  cbv zeta in FW, IV.
+  repeat split.
+  - apply (product 16 9 P roots invk _ _ k0 nm fuel ltac:(lia) ltac:(lia) HkK HRg ph sph ipd ipi sipi om iom); try assumption.
+    + intros d [Ld Cd]. exact (proj1 (FW d Ld Cd)).
+    + intros d yy [Ld Cd] Hyy. exact (proj1 (IV d yy Ld Cd Hyy)).
+  - apply (product 16 9 P roots invk _ _ k0 nm fuel ltac:(lia) ltac:(lia) HkK HRg ph sph ipd ipi sipi om iom); try assumption.
+    + intros d [Ld Cd]. exact (proj1 (proj2 (FW d Ld Cd))).
+    + intros d yy [Ld Cd] Hyy. exact (proj1 (proj2 (IV d yy Ld Cd Hyy))).
+  - apply (product 16 9 P roots invk _ _ k0 nm fuel ltac:(lia) ltac:(lia) HkK HRg ph sph ipd ipi sipi om iom); try assumption.
+    + intros d [Ld Cd]. exact (proj2 (proj2 (FW d Ld Cd))).
+    + intros d yy [Ld Cd] Hyy. exact (proj2 (proj2 (IV d yy Ld Cd Hyy))).
+Qed.
+
+Variable Pn : list Z.
+Theorem source_product_u64 : (S k0 <= 20)%nat ->
+  (forall c, (c < nm)%nat -> rowok64 P Pn roots invk c /\ (nth c roots 0 ^ (2 ^ Z.of_nat 20)) mod nth c P 0 = nth c P 0 - 1 /\ (nth c invk 0 * 2 ^ Z.of_nat 20) mod nth c P 0 = 1) ->
+  exists ph sph ipd ipi sipi om iom, gen_initialize_u64 fuel (Z.of_nat n) om0 iom0 ph0 sph0 ipd0 ipi0 sipi0 (Z.of_nat nm) roots P Pn invk = Some (ph, sph, ipd, ipi, sipi, om, iom) /\
+    pr P k0 nm (fun d => gen_ntt_pow_phi_serial_u64 (Z.of_nat n) (Z.of_nat nm) d ph sph om P) (fun d => gen_invntt_pow_invphi_serial_u64 fuel (Z.of_nat n) (Z.of_nat nm) d iom ipd ipi sipi P y0) a b /\
+    pr P k0 nm (fun d => gen_ntt_pow_phi_sse_u64 (Z.of_nat n) (Z.of_nat nm) d ph sph om P) (fun d => gen_invntt_pow_invphi_sse_u64 fuel (Z.of_nat n) (Z.of_nat nm) d iom ipd ipi sipi P y0) a b /\
+    pr P k0 nm (fun d => gen_ntt_pow_phi_avx2_u64 (Z.of_nat n) (Z.of_nat nm) d ph sph om P) (fun d => gen_invntt_pow_invphi_avx2_u64 fuel (Z.of_nat n) (Z.of_nat nm) d iom ipd ipi sipi P y0) a b.
+Proof.
+  intros HkK HR.
+  destruct (source_initialize_u64 P Pn roots invk k0 nm fuel ph0 sph0 ipd0 ipi0 sipi0 om0 iom0 HkK Hf Hnm (fun c Hc => proj1 (HR c Hc)) L1 L2 L3 L4 L5 L6 L7)
+    as (ph & sph & ipd & ipi & sipi & om & iom & E & (M1 & M2 & M3 & M4 & M5 & M6 & M7) & Rows).
+  exists ph, sph, ipd, ipi, sipi, om, iom. split; [exact E|].
+  assert (HRow : forall c, (c < nm)%nat -> Hrow 64 (nth c P 0)) by (intros c Hc; destruct (HR c Hc) as ((A & _) & _); exact (h64 _ _ A)).
+  assert (HRg : forall c, (c < nm)%nat -> Hrow 64 (nth c P 0) /\ (nth c roots 0 ^ (2 ^ Z.of_nat 20)) mod nth c P 0 = nth c P 0 - 1 /\ (nth c invk 0 * 2 ^ Z.of_nat 20) mod nth c P 0 = 1)
+    by (intros c Hc; destruct (HR c Hc) as ((A & _) & B & C); pose proof (h64 _ _ A); auto).
+  assert (TF : forall c, (c < nm)%nat -> let p := nth c P 0 in let g := nth c roots 0 in let shp := map (fun v => (v * 2 ^ 64) / p) in
+     (forall i, (i < n)%nat -> nth (c * n + i) ph 0 = nth i (phis p g 20 k0) 0 /\ nth (c * n + i) sph 0 = nth i (shp (phis p g 20 k0)) 0) /\
+     (forall i, (i < n - 1)%nat -> nth (c * (n * 2) + i) om 0 = nth i (flat p (S k0) (omega p g 20 k0)) 0 /\ nth (c * (n * 2) + n + i) om 0 = nth i (shp (flat p (S k0) (omega p g 20 k0))) 0)).
+  { intros c Hc. destruct (Rows c Hc) as (_ & R1 & R2). cbv zeta in R1, R2 |- *. split; intros i Hi; [destruct (R1 i Hi) as (A & B & _ & _) | destruct (R2 i Hi) as (A & B & _ & _)]; split; assumption. }
+  assert (TI : forall c, (c < nm)%nat -> let p := nth c P 0 in let g := nth c roots 0 in let ik := nth c invk 0 in let shp := map (fun v => (v * 2 ^ 64) / p) in
+     (forall i, (i < n)%nat -> nth (c * n + i) ipi 0 = nth i (cs p g ik 20 k0) 0 /\ nth (c * n + i) sipi 0 = nth i (shp (cs p g ik 20 k0)) 0) /\
+     (forall i, (i < n - 1)%nat -> nth (c * (n * 2) + i) iom 0 = nth i (flat p (S k0) (invomega p g 20 k0)) 0 /\ nth (c * (n * 2) + n + i) iom 0 = nth i (shp (flat p (S k0) (invomega p g 20 k0))) 0)).
+  { intros c Hc. destruct (Rows c Hc) as (_ & R1 & R2). cbv zeta in R1, R2 |- *. split; intros i Hi; [destruct (R1 i Hi) as (_ & _ & A & B) | destruct (R2 i Hi) as (_ & _ & A & B)]; split; assumption. }
+  assert (FW : forall d, length d = (nm * n)%nat -> (forall c, (c < nm)%nat -> Forall (fun v => 0 <= v < nth c P 0) (firstn n (skipn (c * n) d))) -> _)
+    by (intros d Ld Cd; exact (proj2 (proj2 (source_ntt_pow_phi_pointwise 20 k0 nm P roots d ph sph om ltac:(lia) Hnm Ld ltac:(lia) ltac:(lia) ltac:(lia) Cd)) HRow TF)).
+  assert (IV : forall d yy, length d = (nm * n)%nat -> (forall c, (c < nm)%nat -> Forall (fun v => 0 <= v < nth c P 0) (firstn n (skipn (c * n) d))) -> length yy = S n -> _)
+    by (intros d yy Ld Cd Hyy; exact (proj2 (proj2 (source_invntt_pow_invphi 20 k0 nm fuel P roots invk d iom ipd ipi sipi yy ltac:(lia) HkK Hnm Hf Ld ltac:(lia) ltac:(lia) ltac:(lia) ltac:(lia) Hyy Cd (fun c Hc => proj1 (proj2 (HRg c Hc))))) HRow TI)).
+  cbv zeta in FW, IV.
+  repeat split.
+  - apply (product 64 20 P roots invk _ _ k0 nm fuel ltac:(lia) ltac:(lia) HkK HRg ph sph ipd ipi sipi om iom); try assumption.
+    + intros d [Ld Cd]. exact (proj1 (FW d Ld Cd)).
+    + intros d yy [Ld Cd] Hyy. exact (proj1 (IV d yy Ld Cd Hyy)).
+  - apply (product 64 20 P roots invk _ _ k0 nm fuel ltac:(lia) ltac:(lia) HkK HRg ph sph ipd ipi sipi om iom); try assumption.
+    + intros d [Ld Cd]. exact (proj1 (proj2 (FW d Ld Cd))).
+    + intros d yy [Ld Cd] Hyy. exact (proj1 (proj2 (IV d yy Ld Cd Hyy))).
+  - apply (product 64 20 P roots invk _ _ k0 nm fuel ltac:(lia) ltac:(lia) HkK HRg ph sph ipd ipi sipi om iom); try assumption.
+    + intros d [Ld Cd]. exact (proj2 (proj2 (FW d Ld Cd))).
+    + intros d yy [Ld Cd] Hyy. exact (proj2 (proj2 (IV d yy Ld Cd Hyy))).
+Qed.
+End InstP.
